@@ -132,6 +132,17 @@ func checkC11(c *c11Case) (fl *failure, harnessErr string) {
 				return failf("Equal(x, x[:len(x)]) is false for %s", repr.Describe(full))
 			}
 		}
+		// one operand holding the very same Go container twice ([x, x]) against [x, y]: equal exactly
+		// when x and y are, whichever side the shared container is on
+		if got := eq([]any{ra, ra}, []any{ra, rb}); got != wantAB {
+			return failf("Equal([x,x],[x,y])=%v although x and y are equal=%v (the same container occurs twice in the left operand)\n x=%s as %s\n y=%s as %s", got, wantAB, c.A.JSON(), c.ReprA, c.B.JSON(), c.ReprB)
+		}
+		if got := eq([]any{ra, rb}, []any{ra, ra}); got != wantAB {
+			return failf("Equal([x,y],[x,x])=%v although x and y are equal=%v (the same container occurs twice in the right operand)\n x=%s as %s\n y=%s as %s", got, wantAB, c.A.JSON(), c.ReprA, c.B.JSON(), c.ReprB)
+		}
+		if got := eq(map[string]any{"p": rb, "q": rb}, map[string]any{"p": rb, "q": rc}); got != wantBC {
+			return failf("Equal({p:x,q:x},{p:x,q:y})=%v although x and y are equal=%v\n x=%s as %s\n y=%s as %s", got, wantBC, c.B.JSON(), c.ReprB, c.C.JSON(), c.ReprC)
+		}
 		// the laws, stated on the library's own answers
 		if eq(ra, rb) && eq(rb, rc) && !eq(ra, rc) {
 			return failf("Equal is not transitive")
